@@ -100,17 +100,27 @@ class World:
         self.ndat = z3.Int('n_data_it')
         a, b = z3.Int('i!a'), z3.Int('i!b')
         m = z3.Int('m!w')
+        self._seq_axioms = False
+        # rank = position in sorted(set(it)): 0-based, strictly increasing with the iteration value
+        c.assume(z3.ForAll([a], z3.Implies(self.init(a), self.rank(a) >= 0)))
+        c.assume(z3.ForAll([a, b], z3.Implies(z3.And(self.init(a), self.init(b), a < b), self.rank(a) < self.rank(b))))
+        self.fs = FSState()
+        self.frame = []
+
+    def need_sequences(self):
+        """facts about the two lists as SEQUENCES (length, element at a position): only added when the code asks for a length,
+        a slice or an element by position -- the plain loop needs none of them, and they slow every solver call"""
+        if self._seq_axioms:
+            return
+        self._seq_axioms = True
+        c = self.c
+        a, b, m = z3.Int('i!sa'), z3.Int('i!sb'), z3.Int('m!sw')
         c.assume(z3.And(self.n >= 0, self.ndat >= 0))
         c.assume(z3.ForAll([a], z3.Implies(self.init(a), z3.And(self.rank(a) < self.n, self.itat(self.rank(a)) == a))))
         c.assume(z3.ForAll([m], z3.Implies(z3.And(m >= 0, m < self.n), z3.And(self.init(self.itat(m)), self.rank(self.itat(m)) == m))))
         # requires: the iterations passed to save_data are among data['it'] (distinct values): pos is their position there
         c.assume(z3.ForAll([a], z3.Implies(self.init(a), z3.And(self.pos(a) >= 0, self.pos(a) < self.ndat, self.dat(self.pos(a)) == a))))
         c.assume(z3.ForAll([a, b], z3.Implies(z3.And(a >= 0, a < self.ndat, b >= 0, b < self.ndat, a != b), self.dat(a) != self.dat(b))))
-        # rank = position in sorted(set(it)): 0-based, strictly increasing with the iteration value
-        c.assume(z3.ForAll([a], z3.Implies(self.init(a), self.rank(a) >= 0)))
-        c.assume(z3.ForAll([a, b], z3.Implies(z3.And(self.init(a), self.init(b), a < b), self.rank(a) < self.rank(b))))
-        self.fs = FSState()
-        self.frame = []
 
 
 class FSState:
@@ -214,6 +224,7 @@ class SSorted(SIterList):
     def __getitem__(self, n):
         w = self.world
         if w is not None and hasattr(w, 'itat'):
+            w.need_sequences()
             return SeqView(w.n, lambda p: w.itat(p)).__getitem__(n)
         if n == 0 or n == -1:
             c = SX.ctx()
@@ -329,6 +340,10 @@ class SItsList(SeqView):
     def __init__(self, w):
         self.w = w
         SeqView.__init__(self, w.ndat, lambda p: w.dat(p))
+
+    def __getitem__(self, n):
+        self.w.need_sequences()
+        return SeqView.__getitem__(self, n)
 
     def index(self, i):
         # requires: every iteration passed to save_data is one of data['it'] (else ValueError)
@@ -474,8 +489,10 @@ def make_globals(w, real_globals, datapath_ok):
 
     def s_len(x):
         if isinstance(x, SeqView):
+            w.need_sequences()
             return Z(x.length)
         if isinstance(x, SSorted) and hasattr(w, 'n'):
+            w.need_sequences()
             return Z(w.n)
         if isinstance(x, (SVarList, SIterList, SData)):
             raise SX.PathAbort(f'len() of a symbolic {type(x).__name__}')
@@ -778,7 +795,7 @@ def _one_config(args):
             r = agg.setdefault(nm, dict(valid=0, invalid=[], unknown=[], secs=0.0))
             if r['invalid'] or len(r['unknown']) >= 2:
                 continue              # one counter-model per obligation is enough
-            if time.time() - t0 > 240:
+            if time.time() - t0 > 600:
                 r['unknown'].append('not attempted: the time budget of this configuration was used up (an instance that is not proved is never counted as discharged)')
                 continue
             v, model, secs = prove(pc, goal, 10000)
